@@ -193,6 +193,8 @@ def apply_edit(root, st):
             del data[pos:]
         elif k == "append":
             data += b"\n"
+        elif k == "empty":
+            del data[:]                # the manifest is still there, with no bytes in it: modified (31), not missing
         st0 = os.stat(f)
         with open(f, "wb") as fh:
             fh.write(bytes(data))
@@ -231,6 +233,8 @@ def cli_cwd(root, st, aux):
     """the working directory of a command step (None: wherever the harness runs)"""
     if st.get("rel_dest"):
         return aux
+    if st.get("op") == "verifypl" and st.get("pl_rel") and st.get("pl_path"):
+        return os.path.dirname(st["pl_path"])
     if st.get("op") == "infosf" and st.get("sf_rel"):
         return os.path.dirname(os.path.join(root, st["file"]))       # the file is named relative to the working directory
     if st.get("spell") in ("rel", "dotrel"):
@@ -310,7 +314,8 @@ def _cli_args(root, st, aux):
             a += ["-i", i]
         return "verify", a
     if op == "verifypl":
-        return "verify", [r, "-pl", st["pl_path"]]
+        # pl_rel: the packing list named relative to the working directory (which is the folder the packing list lies in)
+        return "verify", [r, "-pl", os.path.basename(st["pl_path"]) if st.get("pl_rel") and st.get("pl_path") else st["pl_path"]]
     if op == "diff":
         a = [r]
         for i in st.get("i") or []:
@@ -365,11 +370,11 @@ def hist_state(root):
 def run_impl(scn, scratch, keep=False, snap=False):
     """-> (list of observations, root path).  One observation per step (edits give {'edit': op}).
     scn["tz"]: the whole scenario runs under this TZ value (restored afterwards)"""
-    if scn.get("tz"):
+    if scn.get("tz") or any(st.get("op") == "tz" for st in scn["steps"]):
         import time as _time
 
         old_tz = os.environ.get("TZ")
-        os.environ["TZ"] = scn["tz"]
+        os.environ["TZ"] = scn.get("tz") or old_tz or "UTC"
         _time.tzset()
         try:
             return _run_impl(scn, scratch, keep, snap)
@@ -403,6 +408,14 @@ def _run_impl(scn, scratch, keep=False, snap=False):
         if st["op"] == "clock":
             clock = st["t"]
             obs.append({"edit": "clock"})
+            continue
+        if st["op"] == "tz":
+            # the machine's time zone changes between two runs (a history continued elsewhere, a daylight-saving switch)
+            import time as _time
+
+            os.environ["TZ"] = st["tz"]
+            _time.tzset()
+            obs.append({"edit": "tz"})
             continue
         if st["op"] not in COMMANDS:
             apply_edit(root, st)
